@@ -43,6 +43,11 @@ EXPLANATION = ("expand_indices / remove_component_tensors / renumber_indices run
                "the same value for all terminal values, with the same shape and free indices.")
 
 
+# corpus expressions the three passes must ACCEPT (plain index notation over conditionals: a refusal of these is not a legitimate precondition failure)
+MUST_ACCEPT = ("vector conditional with a literal in the condition", "matrix conditional with a division in the condition", "vector conditional with a zero in the condition",
+               "nested tensor conditionals")
+
+
 def build(run):
     for f in (IndexExpander.terminal, IndexExpander.form_argument, IndexExpander.zero, IndexExpander.scalar_value, IndexExpander.conditional,
               IndexExpander.division, IndexExpander.index_sum, IndexExpander.multi_index, IndexExpander.indexed, IndexExpander.component_tensor,
@@ -63,6 +68,9 @@ def build(run):
             except ValueError as ex:
                 if not deliberate(ex):
                     return violated(f"crash instead of a result or a refusal: {crash_text(ex)}", reproduced=True, backend="exec")
+                if any(k_ in tag for k_ in MUST_ACCEPT):
+                    return violated(f"{tag}: the pass refuses a valid index-notation expression of the kind it is specified for: {ex}", replay={"obligation": tag, "error": str(ex)},
+                                    reproduced=True, backend="exec")
                 return proved("refused", sample=f"{tag}: raises ValueError: {ex}"[:200])
             except Exception as ex:  # noqa: BLE001
                 return violated(f"{tag}: pass crashed with {type(ex).__name__}: {ex}", replay={"expr": str(e)[:800], "repr": repr(e)[:3000]},
